@@ -515,10 +515,13 @@ impl PageCache {
     }
 
     pub fn clear(&self) {
-        let page_count = self.len();
+        // Count what is actually dropped, under each shard's write lock: a page
+        // inserted or evicted concurrently must not be missed or released twice.
+        let mut page_count = 0;
 
         for shard in &self.shards {
             let mut guard = shard.write();
+            page_count += guard.entries.len();
             guard.entries.clear();
             guard.index.clear();
             guard.hand = 0;
